@@ -17,6 +17,8 @@ from ..dataflow import DefUse
 from ..gamedata import proto, tile_extent
 from ..pipeline import compile_funcs, mains
 from ..sites import guard_chain
+from .util import canon, cguards, rtext
+import re
 
 
 def pole_config(repo: Repo) -> dict:
@@ -49,28 +51,52 @@ def run(repo: Repo, rep: Report, tier: str) -> None:
     rep.rule("C18-R2", "grid step = k * supply_radius with k <= 2 in both axes (the same step drives x and y); the first pole sits at most one radius inside the covered area")
     grid = repo.func("PowerPlanner.add_power_pole_grid")
     du = DefUse(grid)
-    sp = [v for v in du.value_exprs("spacing")]
+    cg = canon(grid)
+    roles: dict[str, str] = {}
+    # radius: a local whose every definition is 0.0 or float(<config row>['supply_radius'])
+    for nm, ds in du.defs.items():
+        vals = [v for v, how, _ in ds if how == "assign"]
+        if vals and all(isinstance(v, ast.Constant) and v.value == 0.0 or (isinstance(v, ast.Call) and call_name(v) == "float" and "['supply_radius']" in cg.text(v) and "POWER_POLE_CONFIG" in cg.text(v)) for v in vals) \
+                and any(isinstance(v, ast.Call) for v in vals):
+            roles[nm] = "R"
+    # step: a local defined once as k * R
+    step_defs = []
+    for nm, ds in du.defs.items():
+        vals = [v for v, how, _ in ds if how == "assign"]
+        if len(vals) == 1 and isinstance(vals[0], ast.BinOp) and isinstance(vals[0].op, ast.Mult) and any(isinstance(x, ast.Name) and roles.get(x.id) == "R" for x in (vals[0].left, vals[0].right)):
+            roles[nm] = "S"
+            step_defs.append(vals[0])
+    for nm, ds in du.defs.items():
+        if nm not in roles and any("footprint" in norm(v) for v, how, _ in ds if how == "assign") and any(isinstance(v, ast.Tuple) for v, how, _ in ds):
+            roles[nm] = "F"
     ok = False
-    detail = "no spacing expression"
-    if sp:
-        e = sp[0]
-        detail = norm(e)
-        if isinstance(e, ast.BinOp) and isinstance(e.op, ast.Mult):
-            consts = [x for x in (e.left, e.right) if isinstance(x, ast.Constant)]
-            names = [x for x in (e.left, e.right) if isinstance(x, ast.Name)]
-            ok = bool(consts) and bool(names) and float(consts[0].value) <= 2.0 and names[0].id == "supply_radius"
-    rep.check(ok, "C18-R2", "grid step is at most twice the supply radius", f"spacing = {detail}", grid.loc())
-    sr = {str(l) for l in du.leaves(ast.Name(id="supply_radius", ctx=ast.Load()))}
-    rep.check(any("POWER_POLE_CONFIG" in s for s in sr) and any("'supply_radius'" in norm(v) for v in du.value_exprs("supply_radius_raw")), "C18-R2", "the radius is the configured row's supply_radius",
-              "; ".join(norm(v) for v in du.value_exprs("supply_radius_raw")), grid.loc())
-    steps = [n for n in walk_local(grid.node) if isinstance(n, ast.AugAssign) and isinstance(n.op, ast.Add) and norm(n.target) in ("x", "y")]
-    rep.check(len(steps) >= 2 and all(norm(s.value) == "spacing" for s in steps), "C18-R2", "both axes advance by the grid step", "; ".join(norm(s) for s in steps), grid.loc())
-    bo = du.value_exprs("base_offset")
-    ok = bool(bo) and norm(bo[0]).replace(" ", "") in ("-spacing/2.0+footprint[0]/2.0", "-spacing/2+footprint[0]/2")
-    rep.check(ok, "C18-R2", "first pole at most one radius inside the area", norm(bo[0]) if bo else "", grid.loc())
+    detail = "no `k * supply radius` step expression"
+    if len(step_defs) == 1:
+        e = step_defs[0]
+        detail = rtext(e, roles)
+        consts = [x for x in (e.left, e.right) if isinstance(x, ast.Constant)]
+        ok = bool(consts) and float(consts[0].value) <= 2.0
+    rep.check(ok, "C18-R2", "grid step is at most twice the supply radius", f"step = {detail}", grid.loc())
+    rnames = [nm for nm, r in roles.items() if r == "R"]
+    rep.check(len(rnames) == 1, "C18-R2", "the radius is the configured row's supply_radius", "radius = float(POWER_POLE_CONFIG[...]['supply_radius']) (or 0.0)" if rnames else "no local holds the configured supply_radius", grid.loc())
     whiles = [n for n in walk_local(grid.node) if isinstance(n, ast.While)]
-    ok = len(whiles) == 2 and {norm(w.test) for w in whiles} == {"x < end_x", "y < end_y"}
-    rep.check(ok, "C18-R2", "the grid spans the whole estimated area in both axes", "; ".join(norm(w.test) for w in whiles), grid.loc())
+    axes = []
+    for w in whiles:
+        if isinstance(w.test, ast.Compare) and len(w.test.ops) == 1 and isinstance(w.test.ops[0], ast.Lt) and isinstance(w.test.left, ast.Name):
+            axes.append((w, w.test.left.id))
+    steps = [n for n in walk_local(grid.node) if isinstance(n, ast.AugAssign) and isinstance(n.op, ast.Add) and norm(n.target) in {a for _, a in axes}]
+    rep.check(len(axes) == 2 and len({a for _, a in axes}) == 2 and len(steps) >= 2 and all(rtext(s_.value, roles) == "S" for s_ in steps) and {norm(s_.target) for s_ in steps} == {a for _, a in axes},
+              "C18-R2", "both axes advance by the grid step", "; ".join(rtext(s_, roles) for s_ in steps), grid.loc())
+    # the first pole: both axis variables start at <offset> + B with B = -S/2 + F[0]/2
+    bases = [nm for nm, ds in du.defs.items() if any(rtext(v, roles).replace(" ", "") in ("-S/2.0+F[0]/2.0", "-S/2+F[0]/2") for v, how, _ in ds if how == "assign")]
+    ok = len(bases) == 1 and len(axes) == 2
+    if ok:
+        for _w, a in axes:
+            t = cg.text(ast.Name(id=a, ctx=ast.Load()), at=_w)
+            ok = ok and cg.text(ast.Name(id=bases[0], ctx=ast.Load()), at=_w) in t
+    rep.check(ok, "C18-R2", "first pole at most one radius inside the area", f"start = offset + (-S / 2 + F[0] / 2)" if ok else f"base offset locals: {bases}", grid.loc())
+    ok = len(axes) == 2 and all("math.sqrt(len(self.layout_plan.entity_placements)" in cg.text(w.test.comparators[0]) for w, _ in axes)
+    rep.check(ok, "C18-R2", "the grid spans the whole estimated area in both axes", "; ".join(rtext(w.test, roles) for w in whiles), grid.loc())
 
     # ---------------- R3 ---------------------------------------------------------------
     rep.rule("C18-R3", "PowerPlanner is constructed only under a truthy power_pole_type, which flows unchanged from the CLI option in both mains; "
@@ -123,24 +149,46 @@ def run(repo: Repo, rep: Report, tier: str) -> None:
         st = a
         while not isinstance(st, ast.stmt):
             st = pm[st]
-        gs = [norm(t) for t, pol in guard_chain(cp, st, pm) if pol]
-        ok = any(g.startswith("dist <= min(") and g.count("maximum_wire_distance") == 2 for g in gs)
+        ccp = canon(cp)
+        ends = {ccp.text(x) for x in a.args[:2]}
+        ok = False
+        gs = []
+        for t, pol in guard_chain(cp, st, pm):
+            gs.append(("" if pol else "not ") + norm(t))
+            if pol and isinstance(t, ast.Compare) and len(t.ops) == 1 and isinstance(t.ops[0], (ast.LtE, ast.Lt)) and isinstance(t.comparators[0], ast.Call) and call_name(t.comparators[0]) == "min" \
+                    and len(t.comparators[0].args) == 2 and all(isinstance(x, ast.Attribute) and x.attr == "maximum_wire_distance" for x in t.comparators[0].args) \
+                    and {ccp.text(x.value) for x in t.comparators[0].args} == ends and len(ends) == 2 and "distance(" in ccp.text(t.left):
+                ok = True
         rep.check(ok, "C18-R4", "copper wire only within the reach of both poles", "; ".join(gs), cp.loc(a))
 
     # ---------------- R5 ---------------------------------------------------------------
     rep.rule("C18-R5", "a pole is trimmed only if it carries the grid-pole flag and no non-pole entity centre lies within the supply radius in both axes")
     tr = lp.methods["_trim_power_poles"]
     pmt = parents_map(tr.node)
-    apps = [c for c in calls_in(tr.node, "append") if norm(c.func).startswith("poles_to_remove")]
+    ctr = canon(tr)
+    # the list of ids that is later deleted from entity_placements
+    del_lists = set()
+    for n in walk_local(tr.node):
+        if isinstance(n, ast.For) and isinstance(n.iter, ast.Name) and any(isinstance(x, ast.Delete) or (isinstance(x, ast.Call) and call_name(x) == "pop") for x in ast.walk(n)):
+            del_lists.add(n.iter.id)
+    apps = [c for c in calls_in(tr.node, "append") if isinstance(c.func, ast.Attribute) and isinstance(c.func.value, ast.Name) and c.func.value.id in del_lists]
     rep.floor("C18-R5", "trim decisions", len(apps), 1)
+    dut = DefUse(tr)
+    cov = [n for n in walk_local(tr.node) if isinstance(n, ast.If) and isinstance(n.test, ast.BoolOp) and isinstance(n.test.op, ast.And) and len(n.test.values) == 2
+           and all(isinstance(v, ast.Compare) and isinstance(v.ops[0], ast.LtE) for v in n.test.values) and any(isinstance(s_, ast.Assign) and norm(s_.value) == "True" for s_ in n.body)]
+    flag_names = {s_.targets[0].id for n in cov for s_ in n.body if isinstance(s_, ast.Assign) and isinstance(s_.targets[0], ast.Name) and norm(s_.value) == "True"}
     for a in apps:
-        st = a
-        while not isinstance(st, ast.stmt):
-            st = pmt[st]
-        gs = [(norm(t), pol) for t, pol in guard_chain(tr, st, pmt)]
+        gs = cguards(tr, a)
+        raw = [(norm(t), pol) for t, pol in guard_chain(tr, __import__("fv.rules.util", fromlist=["stmt_of"]).stmt_of(tr, a), pmt)]
         flagged = any("is_power_pole" in g and g.startswith("not ") and not pol for g, pol in gs)
-        uncovered = any(g == "not covers_any" and pol for g, pol in gs)
-        rep.check(flagged and uncovered, "C18-R5", "only flagged, non-covering poles are trimmed", "; ".join(("" if p else "NOT ") + g for g, p in gs), tr.loc(a))
-    cov = [n for n in walk_local(tr.node) if isinstance(n, ast.If) and "supply_radius" in norm(n.test) and "dx" in norm(n.test)]
-    ok = bool(cov) and norm(cov[0].test) == "dx <= supply_radius and dy <= supply_radius" and any(isinstance(s, ast.Assign) and norm(s) == "covers_any = True" for s in cov[0].body)
-    rep.check(ok, "C18-R5", "coverage test is |dx| <= r and |dy| <= r", norm(cov[0].test) if cov else "", tr.loc(cov[0]) if cov else tr.loc())
+        uncovered = any(pol and g.startswith("not ") and g[4:] in flag_names for g, pol in raw)
+        rep.check(flagged and uncovered, "C18-R5", "only flagged, non-covering poles are trimmed", "; ".join(("" if p else "NOT ") + g[:80] for g, p in gs), tr.loc(a))
+    ok = False
+    shown = ""
+    if cov:
+        t0, t1 = (ctr.text(v) for v in cov[0].test.values)
+        shown = f"{t0[-60:]} and {t1[-60:]}"
+        m0 = re.fullmatch(r"abs\((.+)\[0\] - (.+)\[0\]\) <= (.+)", t0)
+        m1 = re.fullmatch(r"abs\((.+)\[1\] - (.+)\[1\]\) <= (.+)", t1)
+        ok = m0 is not None and m1 is not None and m0.group(3) == m1.group(3) and "supply_radius" in m0.group(3) and {m0.group(1), m0.group(2)} == {m1.group(1), m1.group(2)}
+    rep.check(ok, "C18-R5", "coverage test is |dx| <= r and |dy| <= r", shown, tr.loc(cov[0]) if cov else tr.loc())
